@@ -190,7 +190,12 @@ class State(Sized):
 
         # Concatenate the rest of the variables
         for var in state_vars:
-            self.variables[var] = np.concatenate((self.variables[var], values[var]))
+            new_values = np.asarray(values[var])
+            if var in args or var in self.default_values:
+                # Given values take the declared type of the variable
+                # (a 0/1 flag column is boolean, a time given as text is a time)
+                new_values = new_values.astype(self.dtypes[var])
+            self.variables[var] = np.concatenate((self.variables[var], new_values))
 
         logger.debug("Total number of particles = %d", len(self))
 
